@@ -1,7 +1,7 @@
 (* C08, itertools clause — an error-free complete traversal of an anyio.itertools iterator over synchronous
    sources, or one that yields nothing, passes a checkpoint (has_ck: the trace contains a checkpoint(),
    checkpoint_if_cancelled() or cancel_shielded_checkpoint() event).  Infinite iterators: every non-empty prefix.
-   reduce: documented scope - the awaited callback (Call event) is itself obliged to checkpoint.
+   reduce (after the F22 fix): cancellation check first, a real yield at the end, at full strength.
    This file contains only statements closed by `exact` and their Print Assumptions. *)
 From AV Require Import Base Itertools ItertoolsProofs ItertoolsTee ItertoolsAlias.
 
@@ -122,15 +122,48 @@ Theorem C08_tee_next_checkpoints : forall (s : tst) (c : nat) (s' : tst) (r : tr
 Proof. exact tee_next_checkpoints. Qed.
 Print Assumptions C08_tee_next_checkpoints.
 
+(* functools.reduce after the F22 fix, at full strength (every callback - also one that never yields -, every
+   source kind, every initial value): the cancellation check is the very first event, an error-free call yields
+   to the event loop, and in an already cancelled scope nothing is consumed and the callback is not called *)
 Theorem C08_reduce_checkpoints : forall (f : Z -> Z -> Z) (initial : option Z) (s : src),
-  snd (reduce_model f initial s) = None ->
-  (has_ck (fst (reduce_model f initial s)) = true \/ has_call (fst (reduce_model f initial s)) = true) /\
-  (has_call (fst (reduce_model f initial s)) = false -> has_ck (fst (reduce_model f initial s)) = true).
+  hd_error (fst (reduce_model f initial s false)) = Some CkIf /\
+  (snd (reduce_model f initial s false) = None -> has_yield (fst (reduce_model f initial s false)) = true).
 Proof. exact reduce_checkpoints. Qed.
 Print Assumptions C08_reduce_checkpoints.
+
+Theorem C08_reduce_cancelled : forall (f : Z -> Z -> Z) (initial : option Z) (s : src),
+  reduce_model f initial s true = ([CkIf], Some Cancelled) /\
+  has_next (fst (reduce_model f initial s true)) = false /\ has_call (fst (reduce_model f initial s true)) = false.
+Proof. exact reduce_cancelled. Qed.
+Print Assumptions C08_reduce_cancelled.
+
+Theorem C08_reduce_pre_F22_refuted_pinned :
+  exists f initial s, snd (reduce_model_pre_F22 f initial s) = None /\
+                      has_ck (fst (reduce_model_pre_F22 f initial s)) = false /\
+                      has_call (fst (reduce_model_pre_F22 f initial s)) = true.
+Proof. exact reduce_pre_F22_refuted_pinned. Qed.
+Print Assumptions C08_reduce_pre_F22_refuted_pinned.
 
 Theorem C08_zip_longest_alias_checkpoints : forall (fill : Z) (kd : ikinds) (st : istore) (ps : list nat),
   yields (fst (zip_longest_alias_model fill kd st ps)) = [] ->
   has_ck (fst (zip_longest_alias_model fill kd st ps)) = true.
 Proof. exact zip_longest_alias_checkpoints. Qed.
 Print Assumptions C08_zip_longest_alias_checkpoints.
+
+(* tee, per consumer - copies made by tee(it_c, k) at any point included (ops may contain TCopy) *)
+Theorem C08_tee_consumer_checkpoints : forall (mode : nat) (source : list Z) (n : nat) (ops : list top) (c : nat),
+  let s := trun mode source n ops in
+  tstopped s c = true ->
+  (tseen s c = [] -> 1 <= tcks s c) /\ 1 <= tcks s c + tlocks s c.
+Proof. exact tee_consumer_checkpoints. Qed.
+Print Assumptions C08_tee_consumer_checkpoints.
+
+Theorem C08_tee_cks_logged : forall (s : tst) (o : top) (s' : tst) (r : tres) (ev : list (event Z)),
+  tstep s o = (s', r, ev) ->
+  (forall j, j <> op_consumer o -> match o with TCopy _ _ => True | _ => tcks s' j = tcks s j end) /\
+  match o with
+  | TCopy _ _ => True
+  | _ => tcks s' (op_consumer o) = tcks s (op_consumer o) + count_ck ev
+  end.
+Proof. exact tee_cks_logged. Qed.
+Print Assumptions C08_tee_cks_logged.
